@@ -1122,6 +1122,13 @@ impl Monitor for M {
         // delimiters of 3-8 tokens over {a,b} (self-overlapping ones included) against arguments
         // built from near misses: what the KMP prefix function of the delimiter matcher is for
         v.push(Phase::new("kmp", tier.pick(12_000, 600_000)).batch(64));
+        // calls ASSEMBLED by another macro: only there can several space tokens stand in a row in
+        // front of an argument (the lexer never produces two consecutive spaces)
+        v.push(
+            Phase::new("assembled", 4 * 3 * 4)
+                .batch(8)
+                .exhaustive("wrapper macros putting 0..3 space tokens (from arguments and from the replacement text) in front of an undelimited / delimited / second argument of 4 shapes"),
+        );
         v
     }
 
@@ -1235,7 +1242,70 @@ impl Monitor for M {
                     check_call(&mut vm, &inst, &intended, c + rng.usize_below(3), obs, "kmp");
                 }
             }
+            "assembled" => assembled_case(idx, obs),
             _ => obs.inconclusive(format!("unknown phase {phase}")),
+        }
+    }
+}
+
+/// `\W` assembles a call of `\a` with n space tokens (each passed to `\W` as an argument `{ }`)
+/// in front of the argument. TeX (§392-393): an UNDELIMITED parameter skips every space token in
+/// front of its argument; a DELIMITED one keeps them (and then keeps the braces of a group too).
+fn assembled_case(idx: u64, obs: &mut Obs) {
+    let n = (idx % 4) as usize;
+    let kind = (idx / 4) % 3; // 0 undelimited first, 1 delimited, 2 undelimited second parameter
+    let shape = (idx / 12) % 4;
+    // (source text of the argument, what it prints once bound and delivered)
+    let (arg_src, arg_out) = match shape {
+        0 => ("x", "x"),
+        1 => ("{xy}", "xy"),
+        2 => ("{}", ""),
+        _ => ("{{x}}", "x"),
+    };
+    let params: String = (1..=n).map(|i| format!("#{i}")).collect();
+    let spaces_args = "{ }".repeat(n);
+    let (def_a, call_a, tail, expected) = match kind {
+        0 => (
+            "\\def\\a#1{[#1]}".to_string(),
+            format!("\\a{params}"),
+            format!("{arg_src};"),
+            format!("[{arg_out}];"),
+        ),
+        1 => (
+            "\\def\\a#1.{[#1]}".to_string(),
+            format!("\\a{params}"),
+            format!("{arg_src}.;"),
+            format!("[{}{arg_out}];", " ".repeat(n)),
+        ),
+        _ => (
+            "\\def\\a#1#2{[#1|#2]}".to_string(),
+            format!("\\a q{params}"),
+            format!("{arg_src};"),
+            format!("[q|{arg_out}];"),
+        ),
+    };
+    let src = format!("{def_a}\\def\\W{params}{{{call_a}}}\\W {spaces_args}{tail}");
+    let opts = VmOptions::default();
+    let src2 = src.clone();
+    let r = catch(move || vstate::run_program(&opts, &src2));
+    obs.count("assembled:calls");
+    obs.count(&format!("assembled:spaces_in_front_{n}"));
+    match r {
+        Err(p) => obs.repo_panic(&p, json!({"source": src})),
+        Ok((o, out, _vm)) => {
+            let got = out.trim_end().to_string();
+            if !o.is_ok() || got != expected {
+                obs.violation(
+                    "C02:assembled-call-binds-differently-from-TeX",
+                    json!({"source": src, "expected": expected, "got": got, "outcome": format!("{o:?}"),
+                           "rule": "undelimited parameters skip ALL space tokens in front of the argument (TeX §392-393), delimited ones keep them"}),
+                );
+            } else {
+                obs.nontrivial(&src);
+                if obs.wants_sample() {
+                    obs.sample(json!({"source": src, "output": got}));
+                }
+            }
         }
     }
 }
